@@ -40,8 +40,7 @@ def run(ev, vd):
         out = os.path.join(BUILD, "tmp", "alloc_%d.ndjson" % k)
         rc, o, dt = conc.run_harness(cbin("alloc") if mode == "ctlpage" else fbin("alloc"), [out, ev.seed * 100 + k, tier(), mode], timeout=1200)
         return j, out, rc, o
-    with cf.ThreadPoolExecutor(max_workers=8) as ex:
-        results = list(ex.map(job, jobs))
+    results = conc.pmap(job, jobs, lambda j: j[0])
     paths = []
     for (mode, k), out, rc, o in results:
         if rc == 124:
